@@ -147,6 +147,15 @@ func run(s Script, v *vt.V) {
 				perr = err
 				if err == nil {
 					_, perr = w2.Write(junk)
+					if perr != nil && b.Junk%2 == 0 {
+						// a refused writer stays refused: a second attempt on the same
+						// handle must not get through either
+						if _, err2 := w2.Write(junk); err2 == nil {
+							fail("wrong-offset-accepted", "after data at offset %d (registry holds %d) was refused, a second Write on the same writer was accepted", off, written)
+							return
+						}
+						v.Class("wrong-offset-second-write")
+					}
 					if perr == nil {
 						if b.HowEnd == 1 {
 							_, perr = w2.Commit(digest.FromBytes(append(append([]byte{}, content[:written]...), junk...)))
